@@ -318,6 +318,8 @@ def l2e(C, R, F, D, cfg, dyn_impls):
                 src = rv['from_ty'] if sub is None else _subst(rv['from_ty'], sub)
                 ptr_kind = 'Arc' if src.get('k') == 'adt' and src['path'] == 'std::sync::Arc' else '&'
                 inner = src['args'][0] if ptr_kind == 'Arc' else src.get('ty')
+                if inner is not None and inner.get('k') == 'dyn':
+                    continue   # dyn -> dyn re-coercion of an already erased pointer: puts no new type behind the dyn
                 if inner is None or inner.get('k') != 'adt':
                     raise CheckerError('anchor=L2e: unexpected unsizing source %s in %s' % (src.get('str'), fn['path']))
                 iname = inner['path'].split('::')[-1]
